@@ -22,7 +22,8 @@ Spec == Init /\ [][Next]_d
 Opts == [lower : BOOLEAN, snake : BOOLEAN, asmap : BOOLEAN, keep : BOOLEAN, escdec : BOOLEAN, tagseq : BOOLEAN,
          apfx : APfx, kpfx : KPfx, cast : Casts]
 RECURSIVE KeepOK(_)     \* under keep-spaces inter-element white space must not contain blanks (it would be content)
-KeepOK(e) == /\ \A i \in 1..Len(TextKids(e)) : NonBlank(TextKids(e)[i].tx) \/ \A j \in 1..Len(TextKids(e)[i].tx) : TextKids(e)[i].tx[j] # " "
+KeepOK(e) == /\ \/ Len(TextKids(e)) = 1      \* (a run of blanks that is the element's ONLY character data is its value under keep-spaces)
+                \/ \A i \in 1..Len(TextKids(e)) : NonBlank(TextKids(e)[i].tx) \/ \A j \in 1..Len(TextKids(e)[i].tx) : TextKids(e)[i].tx[j] # " "
              /\ \A i \in 1..Len(ElemKids(e)) : KeepOK(ElemKids(e)[i])
 InDomain(o) == /\ o.apfx # o.kpfx
                /\ AttrsDistinct(d, o)
